@@ -8,6 +8,7 @@ import Flumine.Props.C04
 import Flumine.Lemmas.Round
 import Flumine.Lemmas.Cents
 import Mathlib.Tactic.Linarith
+import Flumine.Lemmas.Removed
 namespace Flumine.C09
 open Flumine Flumine.World Flumine.SimOrder
 
@@ -203,5 +204,73 @@ example :
     (detectRemovals [{ sel := 7, status := .removed, af := some 20 }] []).2 = [(7, 0, some 20)] ∧
     (detectRemovals [{ sel := 7, status := .removed, af := some 20 }] [(7, 0, some 20)]).2 = [] := by
   decide +kernel
+
+
+/-! ### C09.4 for whole runs: every market's list of applied removals, and "once" (`Lemmas/Removed.lean` over `Lemmas/Mrem.lean`) -/
+
+open Flumine.Removed Flumine.Inv in
+/-- C09 whole-run: take ANY run - any sequence of updates of any markets in any interleaving, any scripted behaviour of any
+    strategies.  The markets' own lists of applied runner removals at the end are exactly what this specification computes from
+    the updates alone: a closing update changes nothing; any other update makes its market known and appends to THAT market's
+    list the REMOVED runners (selection, handicap, adjustment factor) of the book that are not in it yet.  No request, package,
+    matching pass, callback or update of another market touches a market's list. -/
+theorem removal_lists_whole_run (cfg : Config) (cl : List Client) (ss : List Strategy) (us : List (Nat × Book × (Nat → List Action))) :
+    (runUpdates { cfg := cfg, clients := cl, strategies := ss } us).mrem = us.foldl specRem [] :=
+  runUpdates_mrem { cfg := cfg, clients := cl, strategies := ss } us
+
+open Flumine.Removed in
+/-- the removals an update hands to `_process_runner_removal` are the newly detected ones - by `detect_spec` each once and none
+    of them in the market's list before -/
+theorem removals_processed_are_new (w : World) (mid : Nat) :
+    (w.mwUpdateAnalytics mid).2 = (detectRemovals ((w.market! mid).book.getD {}).runners (w.market! mid).removals).2 := rfl
+
+open Flumine.Removed in
+theorem specRem_nodup (K : List (Nat × List Key)) (u : Nat × Book × (Nat → List Action)) (h : ∀ e ∈ K, e.2.Nodup) :
+    ∀ e ∈ specRem K u, e.2.Nodup := by
+  unfold specRem
+  split
+  · exact h
+  · simp only
+    have hK' : ∀ e ∈ (if u.1 ∈ K.map (·.1) then K else K ++ [(u.1, [])]), e.2.Nodup := by
+      split
+      · exact h
+      · intro e he
+        rcases List.mem_append.mp he with he | he
+        · exact h e he
+        · simp only [List.mem_singleton] at he; subst he; exact List.nodup_nil
+    generalize (if u.1 ∈ K.map (·.1) then K else K ++ [(u.1, [])]) = K' at hK'
+    have hlk : (lookupRem K' u.1).Nodup := by
+      unfold lookupRem
+      cases hf : K'.find? (fun e => decide (e.1 = u.1)) with
+      | none => exact List.nodup_nil
+      | some x => exact hK' x (List.mem_of_find?_eq_some hf)
+    intro e he
+    obtain ⟨x, hx, rfl⟩ := List.mem_map.mp he
+    split
+    · simp only
+      obtain ⟨d1, d2, d3, _⟩ := detect_spec u.2.1.runners (lookupRem K' u.1)
+      rw [d1]
+      refine List.nodup_append.mpr ⟨hlk, d2, ?_⟩
+      intro a ha b hb e
+      exact d3 b hb (e ▸ ha)
+    · exact hK' x hx
+
+open Flumine.Removed Flumine.Inv in
+/-- C09 "once", whole-run: in every state reachable by any run, no market's list of applied removals holds a (selection,
+    handicap, factor) twice - and since an update only processes what is not in the list yet (`removals_processed_are_new`,
+    `detect_spec`), no removal is ever applied twice to the orders of a market, however often and in whatever books it is
+    reported, while another market of the run applies it for itself -/
+theorem removals_applied_once_whole_run (cfg : Config) (cl : List Client) (ss : List Strategy) (us : List (Nat × Book × (Nat → List Action))) :
+    ∀ e ∈ (runUpdates { cfg := cfg, clients := cl, strategies := ss } us).mrem, e.2.Nodup := by
+  rw [removal_lists_whole_run]
+  suffices ∀ (K : List (Nat × List Key)), (∀ e ∈ K, e.2.Nodup) → ∀ e ∈ us.foldl specRem K, e.2.Nodup from this [] (by simp)
+  induction us with
+  | nil => intro K h; exact h
+  | cons u rest ih => intro K h; rw [List.foldl_cons]; exact ih _ (specRem_nodup K u h)
+
+/-- non-vacuity: runner 7 is reported REMOVED in two books of market 1 and in one of market 2: applied once in each -/
+def nvRemBook (pt : Int) : Book := { pt := pt, activeRunners := 1, runners := [{ sel := 1 }, { sel := 7, status := .removed, af := some 20 }] }
+example : (Inv.runUpdates {} [(1, nvRemBook 1000, fun _ => []), (1, nvRemBook 2000, fun _ => []), (2, nvRemBook 2500, fun _ => [])]).mrem =
+    [(1, [(7, 0, some 20)]), (2, [(7, 0, some 20)])] := by decide +kernel
 
 end Flumine.C09
